@@ -727,6 +727,7 @@ class Oracle(object):
         self.view = impl.files          # what the font's own reader sees (zip: a snapshot; package: the live disk)
         self.listing = impl.files       # the UFO when the glyph sets were last bound (their `contents` are a snapshot)
         self.stale_default = False      # an external default-layer change that no reload has taken over yet
+        self.stale_layers = set()       # layers added / deleted externally that the font has not taken over yet
         self.viol = []
         self.same_mtime = set()         # files changed externally without changing the mtime (detection not demanded)
         self.fresh_glyphs = set()       # (layer, glyph) objects created in memory that were never read from / written to disk
@@ -1213,8 +1214,14 @@ def run_impl(case):
         reports = 0
         nonempty = 0
         pending_reload_report = None
+        failed_save = False
         for i, op in enumerate(case["ops"]):
             k = op[0]
+            if failed_save:
+                # a save that raised leaves font and UFO half saved: nothing is executed or compared any more
+                # (the oracle has recorded the failure if the history was inside the property's domain)
+                outs.append(Atom("after-failed-save"))
+                continue
             font = impl.font
             before = mem_state(font)
             dirty_before = dirty_state(font)
@@ -1235,7 +1242,17 @@ def run_impl(case):
             status, result = impl.do(op)
             if k == "xldefault" and result == "ok":
                 oracle.stale_default = True
+            if k in ("xladd", "xldel") and result == "ok":
+                oracle.stale_layers.add(op[1])
+            if k in ("reload", "acceptdel", "lnew", "ldel"):
+                on_disk = set(n for n, _ in xc.layer_contents(impl.files))
+                now = set(impl.font.layers.layerOrder)
+                oracle.stale_layers = {n for n in oracle.stale_layers if (n in on_disk) != (n in now)}
             st = "ok" if status == "ok" else "err:" + str(status[1])
+            if k == "save" and (stale_default_before or oracle.stale_layers) and st != "ok":
+                # a save over a UFO whose layer structure another program changed and the font has not taken over
+                # (ASSUMPTIONS): not judged
+                oracle.tainted = True
             stats["op." + k] = stats.get("op." + k, 0) + 1
             if st != "ok":
                 stats[st] = stats.get(st, 0) + 1
@@ -1330,6 +1347,10 @@ def run_impl(case):
                                        order=False, defaultLayer=False), images=dict(modified=[], added=[]),
                            data=dict(modifiedData=[], addedData=[]))
                 oracle.judge_reload(i, op, rep)
+            if k == "save" and st != "ok":
+                failed_save = True
+                outs.append([Atom("err"), Atom("save-failed")])
+                continue
             try:
                 snap = impl.snapshot()
             except Exception as e:
